@@ -97,6 +97,10 @@ def rewrite_for_kani(root, family="vec", shrinks=None, overlays=None, extra_subs
         notes.append("overlay %s appended to %s as child module (no source line changed)" % (os.path.basename(ovl), rel))
     # common helper module available to all overlays
     lib = os.path.join(root, "src", "lib.rs")
+    libsrc = open(lib).read()
+    if "feature(allocator_api)" not in libsrc:
+        # the Vec::push stub in verif_common names Vec's allocator parameter (cfg(kani) only)
+        open(lib, "w").write("#![cfg_attr(kani, feature(allocator_api))]\n" + libsrc)
     with open(lib, "a") as f:
         f.write('\n#[cfg(kani)]\n#[path = "%s"]\npub mod verif_common;\n' % os.path.join(VERIF, "kani", "common.rs"))
     # offline + empty workspace so that cargo does not look upwards
